@@ -41,6 +41,8 @@ class NumpyEncoder(json.JSONEncoder):
             return obj.tolist()
         if isinstance(obj, np.generic):
             return obj.item()
+        if obj is KLONG_UNDEFINED:
+            return None
         return json.JSONEncoder.default(self, obj)
 
 
@@ -49,7 +51,9 @@ def encode_message(msg):
 
 
 def decode_message(data):
-    return json.loads(data)
+    msg = json.loads(data)
+    # None marks a projection hole in a Klong call: a JSON null message must reach the handler as a value
+    return KLONG_UNDEFINED if msg is None else msg
 
 
 async def execute_server_command(future_loop, result_future, klong, sym, command, nc):
